@@ -1,8 +1,10 @@
 package props
 
 import (
+	"bytes"
 	"errors"
 	"fmt"
+	"math/rand"
 	"os"
 	"path/filepath"
 	"strings"
@@ -14,7 +16,9 @@ import (
 	badger "github.com/dgraph-io/badger/v4"
 
 	"verif/h/core"
+	"verif/h/drv"
 	"verif/h/hist"
+	"verif/h/model"
 )
 
 type mergeOp struct {
@@ -137,6 +141,131 @@ func checkAppendList(ops []porcupine.Operation) string {
 }
 
 // C31 a merge operator returns the fold of all added values, in Add order.
+
+// c31Driven is the sequential counterpart of the concurrent histories: no background compactor, a
+// merge operator whose own merge runs either never (1 h interval: the operands must survive every
+// compaction unmerged) or on demand (Stop runs it), and a random script of Add / junk writes /
+// flush / watermark advance / forced and picked compactions / Get / operator restart / re-open.
+// With one caller the oracle is exact: Get returns the concatenation of every token added so far.
+func c31Driven(c *core.Ctx, work string, idx int, r *rand.Rand) {
+	dir := filepath.Join(work, fmt.Sprintf("drv%d", idx))
+	_ = os.MkdirAll(dir, 0o755)
+	defer os.RemoveAll(dir)
+	o, oname := drvOptions(dir, idx)
+	o.NumVersionsToKeep = 1 + idx%3
+	big := idx%2 == 1 // operands above the value threshold (merge entries that are value pointers)
+	db, err := drv.Open(o, false)
+	if err != nil {
+		c.Inconclusive("open: " + err.Error())
+		return
+	}
+	w := &drv.World{C: c, Sig: "C31|driven", DB: db, Opt: o, M: model.New(), R: r}
+	defer func() { _ = w.DB.Close() }()
+	app := func(a, b []byte) []byte { return append(append([]byte{}, a...), b...) }
+	key := []byte("k~merge")
+	mop := w.DB.GetMergeOperator(key, app, time.Hour)
+	var want []byte
+	ntok, compactions, gets := 0, 0, 0
+	get := func(stage string) bool {
+		got, err := mop.Get()
+		gets++
+		c.Count("merge.driven_gets", 1)
+		if len(want) == 0 {
+			if !errors.Is(err, badger.ErrKeyNotFound) {
+				c.Violation("C31|driven|not-found", fmt.Sprintf("%s: Get before the first Add returns %q, %v", stage, got, err), w.Witness())
+				return false
+			}
+			return true
+		}
+		if err != nil || !bytes.Equal(got, want) {
+			gt, _ := tokensOf(string(got))
+			wt, _ := tokensOf(string(want))
+			c.Violation("C31|driven|fold", fmt.Sprintf("%s: Get returns %d tokens (err=%v), %d were added; got %.120q want %.120q", stage, len(gt), err, len(wt), got, want), w.Witness())
+			return false
+		}
+		return true
+	}
+	steps := c.Pick(60, 160)
+	for st := 0; st < steps; st++ {
+		switch x := r.Intn(100); {
+		case x < 30:
+			tok := fmt.Sprintf("<%d>", ntok)
+			if big {
+				tok = fmt.Sprintf("<%d%s>", ntok, strings.Repeat("x", 70+r.Intn(60)))
+			}
+			ntok++
+			if err := mop.Add([]byte(tok)); err != nil {
+				c.Inconclusive("driven Add: " + err.Error())
+				return
+			}
+			want = append(want, tok...)
+			w.Steps = append(w.Steps, "add "+tok[:min(len(tok), 12)])
+		case x < 45:
+			_, _ = w.Commit([]drv.WriteSpec{{Key: []byte(fmt.Sprintf("junk%02d", r.Intn(30))), Len: 100 + r.Intn(900)}})
+		case x < 60:
+			w.Flush()
+		case x < 70:
+			w.AdvanceWatermark()
+		case x < 82:
+			if w.CompactForce(r.Intn(o.MaxLevels-1), 1) {
+				compactions++
+				if !get("after-forced-compaction") {
+					return
+				}
+			}
+		case x < 90:
+			if ok, _ := w.CompactPicked(r.Intn(2)); ok {
+				compactions++
+				if !get("after-picked-compaction") {
+					return
+				}
+			}
+		case x < 95:
+			if !get("step") {
+				return
+			}
+		case x < 98:
+			// Stop runs the operator's own merge once (write-back at the newest operand's version)
+			mop.Stop()
+			mop = w.DB.GetMergeOperator(key, app, time.Hour)
+			w.Steps = append(w.Steps, "operator-restart")
+			if !get("after-operator-merge") {
+				return
+			}
+		default:
+			mop.Stop()
+			if err := w.DB.Close(); err != nil {
+				c.Violation("C31|driven|close", err.Error(), w.Witness())
+				return
+			}
+			if w.DB, err = drv.Open(o, false); err != nil {
+				c.Violation("C31|driven|reopen", err.Error(), w.Witness())
+				return
+			}
+			mop = w.DB.GetMergeOperator(key, app, time.Hour)
+			w.Steps = append(w.Steps, "reopen")
+			if !get("after-reopen") {
+				return
+			}
+		}
+	}
+	w.Flush()
+	w.AdvanceWatermark()
+	for l := 0; l < o.MaxLevels-1; l++ {
+		if w.CompactForce(l, 1) {
+			compactions++
+		}
+	}
+	get("final")
+	mop.Stop()
+	c.Eval(1)
+	c.Count("merge.driven_compactions", int64(compactions))
+	c.Count("merge.driven_tokens", int64(ntok))
+	if compactions > 0 {
+		c.Distinct(fmt.Sprintf("driven|%s|keep=%d|big=%v", oname, o.NumVersionsToKeep, big))
+	}
+}
+
 func C31(c *core.Ctx) {
 	c.Rule("2-6 clients call Add(unique token) and Get on one MergeOperator whose merge function is list append (associative, not commutative, so order is asserted), merge " +
 		"interval 1-40 ms, tiny memtables with background flush/compaction, 2-3 phases separated by Stop, Close and re-open; in every second history the merge key has neighbours (a proper prefix of it, keys extending it, a second merge operator on an extending key fed concurrently) whose values must never appear in the list; call/return events are checked with porcupine " +
@@ -288,6 +417,12 @@ func C31(c *core.Ctx) {
 		if i < 2 {
 			c.Sample(info)
 		}
+	}
+	c.Rule("driven scripts (no background compactor, merge interval 1 h so operands stay unmerged unless the operator is stopped): random Add / junk writes / flush / watermark advance / " +
+		"forced and picked compactions / operator restart / re-open with one caller; every Get must return exactly the concatenation of all tokens added so far")
+	nd := c.Pick(24, 200)
+	for i := 0; i < nd; i++ {
+		c31Driven(c, work, i, r)
 	}
 	c.CheckRaces(nil, "", "")
 	c.Assume("the merge function is associative; interleavings of the background merge come from its 1-40 ms ticker against client calls")
